@@ -67,6 +67,10 @@ func (o goStructObject) setValue(rt *runtime, name string, value Value) bool {
 	}
 
 	fieldValue := o.getValue(name)
+	if !fieldValue.CanSet() {
+		// A struct handed over by value is not addressable.
+		panic(rt.panicTypeError("Object.setValue: field %s of a %s passed by value cannot be set", name, reflect.Indirect(o.value).Type()))
+	}
 	converted, err := rt.convertCallParameter(value, fieldValue.Type())
 	if err != nil {
 		panic(rt.panicTypeError("Object.setValue convertCallParameter: %s", err))
